@@ -9,3 +9,52 @@ ASSUMPTIONS = ['inductive step from an arbitrary pre-state: share values > 0, sh
 def tasks(tier):
     n = 40 if tier == 'quick' else 1000
     return [(f'{op}', wrapper_task(op, 'C17', n)) for op in OPS if goals_for(op, OpPre, ('C17',))]
+
+
+# ---------------------------------------------------------------- C17.b: the capacity used by 'up to limit' deposits
+import z3
+DRIFT_TAG_ = 4
+
+
+def replay_capacity(model, spec=None):
+    """native replay: the real get_remaining_deposit_capacity on the model's bank; reproduces when it fails (or panics) although a limit is active"""
+    g = lambda n, d=0: int(model.get(fsym('bank*', 'Bank', n).decl().name(), d))
+    bank = {'asset_share_value': str(g('asset_share_value', W)), 'total_asset_shares': str(g('total_asset_shares')), 'config.deposit_limit': str(g('config.deposit_limit')),
+            'config.asset_tag': str(g('config.asset_tag')), 'mint_decimals': str(g('mint_decimals'))}
+    req = {'fn': 'remaining_deposit_capacity', 'bank': bank}
+    out = native([req])[0]
+    bad = bool(out.get('panic')) or not out.get('ok')
+    return bad, {'request': req, 'native': out, 'verdict': 'the real function fails on a bank whose deposits are below (within one token of) the limit' if bad else 'not reproduced'}
+
+
+REPLAYERS['capacity'] = replay_capacity
+
+
+def t_capacity(world):
+    eng = world.engine(merge=True)
+    f = world.fn(r'bank\.rs[^>]*>::get_remaining_deposit_capacity$')
+    bank = eng.ex.fresh(f.params[0][1], 'bank')
+    res = eng.run_fn(f, [bank]); 
+    ob = Ob('C17.b.capacity', 'get_remaining_deposit_capacity (what an \'up to limit\' deposit is clamped to): never fails on a sane bank; u64::MAX iff no limit; otherwise c = max(0, floor(limit - deposits - 1)), '
+            'so that deposits + c <= limit - 1 (one unit of safety margin) and c = 0 whenever less than one whole unit (plus margin) is left',
+            [f.name], 'loop-free, state-merged; non-Drift banks (Drift scaling is C17.d); share value in (0, 2^20), deposit shares and deposit value below 2^64 tokens (beyond that the fixed-point product itself overflows), every u64 limit'); ob.paths = len(res)
+    asv = fsym('bank*', 'Bank', 'asset_share_value'); tas = fsym('bank*', 'Bank', 'total_asset_shares'); lim = fsym('bank*', 'Bank', 'config.deposit_limit'); tag = fsym('bank*', 'Bank', 'config.asset_tag')
+    assets = (tas * asv) / W
+    dom = [asv > 0, asv < (1 << 20) * W, tas >= 0, tas < (1 << 64) * W, assets < (1 << 64) * W, tag != DRIFT_TAG_, tag >= 0, tag <= 5]
+    for r, errc in ok_paths(res, 1):
+        ob.prove(eng, r, dom + [errc], z3.BoolVal(False), 'no failing path: the capacity of a sane bank is always defined (a deposit \'up to limit\' near the limit deposits 0, it does not revert)', role='capacity-fails', replay='capacity')
+    for r, okc in ok_paths(res):
+        h = dom + [okc]
+        if ob.witness(eng, r, h) is False: continue
+        c = r['ret'].payload[0][0].e
+        room = lim * W - assets - W
+        ob.prove(eng, r, h + [lim == U64_MAX], c == U64_MAX, 'no limit => unlimited capacity', role='capacity-unlimited')
+        ob.prove(eng, r, h + [lim != U64_MAX], c == z3.If(room >= 0, room / W, 0), 'c == max(0, floor(limit - deposits - 1))', role='capacity-value', replay='capacity')
+        ob.prove(eng, r, h + [lim != U64_MAX, c > 0], assets + c * W <= lim * W - W, 'deposits + c stays one unit under the limit', role='capacity-margin')
+    ob.need_witness()
+    return [ob]
+
+
+_t17b = tasks
+def tasks(tier):
+    return _t17b(tier) + [('capacity', t_capacity)]
